@@ -3,7 +3,7 @@ from . import register
 
 register('C08', title='minimum-run filter',
          deciding=['check_min_burst_cycles'],
-         rule='exhaustive: every boolean array of length 0..N (N=12 quick, 16 thorough) x every m in 0..len+1; '
+         rule='exhaustive: every boolean array of length 0..N (N=12 quick, 18 thorough) x every m in 0..len+1; '
               'random: arrays up to length 2000 with geometric runs, m integer / non-integer / inf / negative. '
               'distinct = array (by index in the enumeration / by shard+iteration); non-trivial = at least two '
               'maximal True-runs of different length. Oracle: explicit run scan on a snapshot of the input.',
